@@ -311,6 +311,7 @@ def handleObj (st : DState) (parts : List String) : Option (DState × String) :=
     let fmt : Fmt := if f == "cbor" then .cbor else .json
     let outs := (script.splitOn ";").map fun (op : String) =>
       match op.splitOn "|" with
+      | [_, _, _, _, _] => "err"     -- a marshal call whose writer fails at a Write call the document needs (C16: reported)
       | [k, aid, tid, arg] =>
         (match parseNat aid, parseNat tid with
          | some ai, some ti =>
